@@ -300,8 +300,54 @@ def report():
     for r in sorted(by.get("survived", []), key=lambda r: (r["file"], r["line"])):
         key = "%s:%d:%s" % (r["file"], r["line"], r["op"])
         lines.append("* `%s:%d` %s: `%s` -> `%s` - %s" % (r["file"], r["line"], r["op"], r["old"].strip(), r["new"].strip(), notes.get(key, "not yet reviewed")))
+    # ---- C sweep
+    cp = os.path.join(OUT, "results_c.jsonl")
+    if os.path.exists(cp):
+        cs = [json.loads(l) for l in open(cp)]
+        cby = {}
+        for r in cs:
+            cby.setdefault(r["status"], []).append(r)
+        lines += ["", "# Systematic mutation run over the C implementation (c/*.c)", "",
+                  "Same operators on writer.c reader.c block.c record.c iter.c merged.c pq.c stack.c tree.c basics.c strbuf.c. There is",
+                  "no offline C test suite to filter with, so every mutant that compiles goes straight to C15 (quick tier, ASan+UBSan build).", "",
+                  "| outcome | mutants |", "|---|---|"]
+        for k in ["does-not-compile", "detected", "inconclusive", "survived", "stale"]:
+            lines.append("| %s | %d |" % (k, len(cby.get(k, []))))
+        perfile = {}
+        for r in cs:
+            d = perfile.setdefault(r["file"], {"detected": 0, "survived": 0})
+            if r["status"] in d:
+                d[r["status"]] += 1
+        lines += ["", "| file | detected | survived |", "|---|---|---|"]
+        for fn, d in sorted(perfile.items()):
+            lines.append("| %s | %d | %d |" % (fn, d["detected"], d["survived"]))
+        cnotes = {}
+        cnp = os.path.join(OUT, "survivor_notes_c.json")
+        if os.path.exists(cnp):
+            cnotes = json.load(open(cnp))
+        lines += ["", "## C survivors", "", cnotes.get("_summary", ""), ""]
+        for r in sorted(cby.get("survived", []), key=lambda r: (r["file"], r["line"])):
+            key = "%s:%d:%s" % (r["file"], r["line"], r["op"])
+            cls = cnotes.get(key) or classify_c(r)
+            lines.append("* `%s:%d` %s: `%s` - %s" % (r["file"], r["line"], r["op"], r["old"].strip()[:90], cls))
     open(os.path.join(OUT, "REPORT.md"), "w").write("\n".join(lines) + "\n")
     print("\n".join(lines[:16]))
+
+
+def classify_c(r):
+    """Mechanical first classification of a C survivor (reviewed by hand where it says 'review')."""
+    o = r["old"].strip()
+    if r["op"] == "delete statement" and re.search(r"(release|free|destroy|close|done)\w*\(", o):
+        return "memory/handle release removed: a leak (leak detection is off in the driver build), no observable difference"
+    if "printf" in o or "print" in o:
+        return "debug printing"
+    if re.search(r"err\s*(<|>|<=|>=|!=|==)\s*0", o) or "< 0" in o and ("n <" in o or "err" in o):
+        return "error path: no I/O or format errors occur on tables the other implementation wrote"
+    if r["file"] == "c/stack.c":
+        return "stack locking / failure path: C15 drives the C stack from one process only (stated limit)"
+    if "cap" in o:
+        return "buffer growth policy"
+    return "review"
 
 
 if __name__ == "__main__":
